@@ -1,4 +1,5 @@
 import RsMatterVerif.Lemmas.CodecBuf
+import RsMatterVerif.Lemmas.CodecLevel0 -- G5
 import RsMatterVerif.Lemmas.CodecBase38
 import RsMatterVerif.Lemmas.CodecVerhoeff
 import RsMatterVerif.Lemmas.CodecManual
@@ -21,8 +22,8 @@ import RsMatterVerif.Lemmas.CodecCd -- E3
 
 For every modelled codec: `decode (encode x) = ok x` under an explicit, decidable well-formedness
 predicate (with an `example` that it is satisfiable), totality / absence of panics of the decoder on
-arbitrary input (`NoPanic`: the model's checked cursor / index arithmetic never answers
-`Err.panic`), and the refusal clauses of the property (wrong check digit, invalid base-38 character
+arbitrary input (`NoPanic`: the model never answers `Err.panic`; this has content where the model has
+checked operations — see section (0b) for the decoders whose list-level model has none), and the refusal clauses of the property (wrong check digit, invalid base-38 character
 or length class, out-of-range fields).
 
 The proofs live in `Lemmas/Codec*.lean`; this file states the property-level theorems.
@@ -61,6 +62,63 @@ theorem writebuf_append (w : WBuf) (src : List Nat) (h : w.Inv) :
     else w.append src = .error .noSpace) ∧ NoPanic (w.append src) :=
   ⟨WBuf.append_spec w src h, WBuf.append_np w src h⟩
 example : (WBuf.new 8).Inv := WBuf.new_inv _
+
+/-! ## (0b) whole decoders on the cursor model (G5): composition of `parsebuf_refines`
+
+The totality theorems `plain_hdr_decode_total`, `proto_hdr_decode_total`, `status_report_read_total`,
+`bdx_parsers_total` further down are about the *level-1* models, which read from a list and contain no
+failing operation (`Err.panic` does not occur in them): they hold by construction. The content is here:
+the same Rust functions transliterated over the level-0 cursor `RBuf` (`Model/Codec/Level0.lean`), where
+every slice / index / `usize` subtraction of `parsebuf.rs` **and the three direct `payload[..]` index
+expressions of `bdx.rs`** are checked operations answering `Err.panic`, (a) never answer `panic` on arbitrary
+input and (b) compute exactly what the level-1 decoder computes on the remaining bytes. The BTP header /
+handshake decoders read from a byte *iterator* (`next().ok_or(..)?` only, no index expression in the Rust),
+so `btp_hdr_decode_total` / `btp_handshake_decode_total` are by construction in the code as well. -/
+
+/-- `PlainHdr::decode` on any `ReadBuf` in its invariant: equals the list-level decoder on the remaining
+bytes, leaves the cursor in its invariant, and no checked operation fails. `RefinesCur x y` :=
+`match x with | .ok (h, b') => y = .ok (h, b'.rem) ∧ b'.Inv | .error e => y = .error e ∧ e ≠ .panic`. -/
+theorem plain_hdr_decode_refines (h0 : PlainHdr.Hdr) (b : RBuf) (hb : b.Inv) :
+    RefinesCur (PlainHdr.decode0 h0 b) (PlainHdr.decode h0 b.rem) ∧
+    NoPanic (PlainHdr.decode0 h0 b) :=
+  have h := PlainHdr.decode0_sim h0 b rfl rfl hb
+  ⟨SimR.refinesCur hb h, h.noPanic⟩
+
+/-- the same for `ProtoHdr::decrypt_and_decode` (decoding part) -/
+theorem proto_hdr_decode_refines (h0 : ProtoHdr.Hdr) (b : RBuf) (hb : b.Inv) :
+    RefinesCur (ProtoHdr.decode0 h0 b) (ProtoHdr.decode h0 b.rem) ∧
+    NoPanic (ProtoHdr.decode0 h0 b) :=
+  have h := ProtoHdr.decode0_sim h0 b rfl rfl hb
+  ⟨SimR.refinesCur hb h, h.noPanic⟩
+
+/-- `StatusReport::read` (three reads and the checked `as_slice()`) -/
+theorem status_report_read_refines (b : RBuf) (hb : b.Inv) :
+    StatusReport.read0 b = StatusReport.read b.rem ∧ NoPanic (StatusReport.read0 b) :=
+  have h := StatusReport.read0_sim b hb
+  ⟨h.eq, h.noPanic⟩
+example : (RBuf.new [1, 0, 2, 0, 0, 0, 3, 0, 9]).Inv ∧
+    StatusReport.read0 (RBuf.new [1, 0, 2, 0, 0, 0, 3, 0, 9]) = .ok { general := 1, protoId := 2, protoCode := 3, data := [9] } :=
+  ⟨RBuf.new_inv _, rfl⟩
+
+/-- **BDX parsers with their direct index expressions checked** (`payload.get(off..end)`, `&payload[end..]`,
+`&payload[rb.read_off()..]`): for every payload they equal the list-level parsers and never panic.
+`payload.length < 2^64` (a Rust slice length is a `usize`) is needed for `TransferInit` only, where the code
+computes `off.checked_add(fdl)`. -/
+theorem bdx_parsers_refine (l : List Nat) (r : Bool) (hl : l.length < USIZE) :
+    (Bdx.TransferInit.parse0 l = Bdx.TransferInit.parse l ∧ NoPanic (Bdx.TransferInit.parse0 l)) ∧
+    (Bdx.TransferAccept.parse0 r l = Bdx.TransferAccept.parse r l ∧ NoPanic (Bdx.TransferAccept.parse0 r l)) ∧
+    (Bdx.Block.parse0 l = Bdx.Block.parse l ∧ NoPanic (Bdx.Block.parse0 l)) ∧
+    (Bdx.blockQueryParse0 l = Bdx.blockQueryParse l ∧ NoPanic (Bdx.blockQueryParse0 l)) ∧
+    (Bdx.blockQuerySkipParse0 l = Bdx.blockQuerySkipParse l ∧ NoPanic (Bdx.blockQuerySkipParse0 l)) :=
+  ⟨⟨(Bdx.init_parse0_sim l hl).eq, (Bdx.init_parse0_sim l hl).noPanic⟩,
+   ⟨(Bdx.accept_parse0_sim r l).eq, (Bdx.accept_parse0_sim r l).noPanic⟩,
+   ⟨(Bdx.block_parse0_sim l).eq, (Bdx.block_parse0_sim l).noPanic⟩,
+   ⟨(Bdx.blockQuery0_sim l).eq, (Bdx.blockQuery0_sim l).noPanic⟩,
+   ⟨(Bdx.blockQuerySkip0_sim l).eq, (Bdx.blockQuerySkip0_sim l).noPanic⟩⟩
+/-- the checked index is a real obligation: the same slice one byte further out does answer `panic` -/
+example : RBuf.slice [1, 2, 3] 4 3 = .error .panic ∧ RBuf.slice [1, 2, 3] 3 3 = .ok [] := ⟨rfl, rfl⟩
+/-- a TransferInit whose file-designator length exceeds the payload is `TruncatedPacket`, not a panic -/
+example : Bdx.TransferInit.parse0 [0x10, 0, 0, 4, 9, 0, 1] = .error .truncated := rfl
 
 /-! ## (1) base-38 -/
 
@@ -171,6 +229,8 @@ theorem plain_hdr_decode_encode_exact (h : PlainHdr.Hdr) (rest : List Nat) (hwf 
 example : PlainHdr.WF { flags := 6, sessId := 7, secFlags := 0xE1, ctr := 9, src := 11, dst := 13 } ∧
     PlainHdr.Canon { flags := 6, sessId := 7, secFlags := 0xE1, ctr := 9, src := 11, dst := 13 } := by decide
 
+/-- level-1 (list) model: holds by construction (no failing operation in the model); the checked-arithmetic
+statement is `plain_hdr_decode_refines` -/
 theorem plain_hdr_decode_total (h0 : PlainHdr.Hdr) (l : List Nat) : NoPanic (PlainHdr.decode h0 l) :=
   PlainHdr.decode_np h0 l
 
@@ -186,6 +246,7 @@ theorem proto_hdr_decode_encode_exact (h : ProtoHdr.Hdr) (rest : List Nat) (hwf 
 example : ProtoHdr.WF { exchId := 1, flags := 0x13, protoId := 2, opcode := 3, vendorId := 4, ackCtr := 5 } ∧
     ProtoHdr.Canon { exchId := 1, flags := 0x13, protoId := 2, opcode := 3, vendorId := 4, ackCtr := 5 } := by decide
 
+/-- level-1 (list) model: by construction; the checked-arithmetic statement is `proto_hdr_decode_refines` -/
 theorem proto_hdr_decode_total (h0 : ProtoHdr.Hdr) (l : List Nat) : NoPanic (ProtoHdr.decode h0 l) :=
   ProtoHdr.decode_np h0 l
 
@@ -195,6 +256,7 @@ theorem status_report_read_write (r : StatusReport.Report) (hwf : StatusReport.W
     StatusReport.read (StatusReport.writeBytes r) = .ok r :=
   StatusReport.read_write r hwf
 
+/-- level-1 (list) model: by construction; the checked-arithmetic statement is `status_report_read_refines` -/
 theorem status_report_read_total (l : List Nat) : NoPanic (StatusReport.read l) :=
   StatusReport.read_np l
 
@@ -240,6 +302,8 @@ theorem btp_hdr_decode_encode (h h0 : BtpHdr.Hdr) (rest : List Nat) (hwf : BtpHd
   BtpHdr.decode_encode h h0 rest hwf
 example : BtpHdr.WF { flags := 0x0D, opcode := 0, ackNum := 3, seqNum := 4, msgLen := 300 } := by decide
 
+/-- by construction, in the model and in the code: the Rust decoder reads a byte iterator with
+`next().ok_or(ErrorCode::Invalid)?` and has no index / slice / subtraction / `unwrap` -/
 theorem btp_hdr_decode_total (h0 : BtpHdr.Hdr) (l : List Nat) : NoPanic (BtpHdr.decode h0 l) :=
   BtpHdr.decode_np h0 l
 
@@ -255,6 +319,7 @@ theorem btp_handshake_resp_decode_encode (r : BtpHdr.Resp) (rest : List Nat) (hw
 example : BtpHdr.Resp.WF { version := 4, mtu := 247, window := 6 } := by
   refine ⟨by decide, by decide, by decide⟩
 
+/-- by construction (byte iterator, see `btp_hdr_decode_total`) -/
 theorem btp_handshake_decode_total (l : List Nat) :
     NoPanic (BtpHdr.Req.decode l) ∧ NoPanic (BtpHdr.Resp.decode l) :=
   ⟨BtpHdr.req_decode_np l, BtpHdr.resp_decode_np l⟩
@@ -285,6 +350,8 @@ theorem bdx_accept_parse_write (t : Bdx.TransferAccept) (hwf : Bdx.TransferAccep
 theorem bdx_block_parse_write (b : Bdx.Block) (h : b.counter < 4294967296) : Bdx.Block.parse b.writeBytes = .ok b :=
   Bdx.block_parse_write b h
 
+/-- level-1 (list) model: by construction; the statement with the `ReadBuf` arithmetic and the three direct
+`payload[..]` index expressions of `bdx.rs` as checked operations is `bdx_parsers_refine` -/
 theorem bdx_parsers_total (l : List Nat) (r : Bool) :
     NoPanic (Bdx.TransferInit.parse l) ∧ NoPanic (Bdx.TransferAccept.parse r l) ∧ NoPanic (Bdx.Block.parse l) ∧
     NoPanic (Bdx.blockQueryParse l) ∧ NoPanic (Bdx.blockQuerySkipParse l) :=
